@@ -8,7 +8,8 @@ SPEC = {
          "race": True, "env": {"VERIF_C17_RACE": "1"}},
         # real parallelism: several scrapes of one Metrics value at once (and the other side-by-side parties)
         {"pkg": "internal/corerad", "test": "TestVerifParallel", "newgo": True, "timeout": 600, "arch386": [], "env": {"VERIF_PAR": "scrapes"}},
-    ],
+        # the daemon end to end: the real main() in a child process, private network namespace, veth pair
+        {"pkg": "cmd/corerad", "test": "TestVerifE2E", "timeout": 300, "arch386": []}],
     "known_classes": {1: "duplicate_series_labels"},
     "rule": "generated accepted TOML configurations (1-3 interface stanzas incl. names groups; advertise / monitor / idle; "
             "default_lifetime absent/auto/0/explicit/boundary; every stanza kind 0..3: static, ::/64 wildcard and deprecated prefixes, "
